@@ -277,6 +277,9 @@ class Ctx:
 
     def finish(self, level="proof"):
         wall = time.time() - self.t0
+        if not self.replay and not self.coverage.get("evaluations") and all(o[1] for o in self.obligations):
+            # a run that explored nothing must not pass silently (crashed driver, empty case stream, …)
+            self.oblige("run:explored-at-least-one-case", False, "coverage.evaluations is 0")
         # obligations that failed and produced no concrete failing input become
         # "no-failing-input-found" violations
         failed_obl = [o for o in self.obligations if not o[1]]
@@ -439,6 +442,13 @@ def main(argv):
         gate.close()
     ctx = Ctx(a.prop, a.tier, seed, a.replay)
     try:
-        return mod.run(ctx)
+        try:
+            return mod.run(ctx)
+        except Exception:   # a crash of the orchestration is reported, never silently swallowed
+            import traceback
+            tb = traceback.format_exc()
+            print(tb)
+            ctx.oblige("check-script-completed", False, tb[-600:])
+            return ctx.finish()
     finally:
         subprocess.run(["rm", "-rf", ctx.workdir])
